@@ -18,6 +18,7 @@ CONSTANTS
  AnsFree = FALSE
  PollWhileWaiting = FALSE
  PreFixF9 = FALSE
+ PreFixWDel = FALSE
  ThirdPartyFatal = TRUE
  Gen = "bfs"
  ScriptLen = 2
